@@ -123,6 +123,7 @@ type FuncTr struct {
 	recvTy     types.Type
 	elemsEager map[string]bool
 	dupTag     string // suffix for value constants while a return block is duplicated per incoming edge
+	allocID    map[string]*Term // object constants allocated by this function -> their allocation id term
 	callOrd    map[ssa.Instruction]int // source-order rank of each call among same-named calls (`assert after f#n`)
 	curCallNth int
 }
@@ -1242,6 +1243,29 @@ func (ft *FuncTr) store(st *State, at *Term, pv Val, ty types.Type, v *Term, pos
 			ft.onWrite(st, at, n, pv.T, pos)
 		}
 	}
+	// a store into an object this function allocated keeps all cells of older objects: record it so that
+	// opaque predicates stay stable across it
+	var provBefore map[string]*Term
+	var provID *Term
+	if _, local := ft.allocID[rootTerm(pv.T.S)]; !local && pointerLike(v.Sort) {
+		ft.leak() // a reference stored into an older object may make local objects reachable from it
+	}
+	if id, ok := ft.allocID[rootTerm(pv.T.S)]; ok {
+		provID = id
+		provBefore = map[string]*Term{}
+		arrs := map[string]*Sort{}
+		ft.h.arraysOfTypeMem(ty, arrs)
+		for n, srt := range arrs {
+			provBefore[n] = ft.h.arr(st, n, srt)
+		}
+	}
+	defer func() {
+		for n, b := range provBefore {
+			if a, ok := st.heap[n]; ok && a.S != b.S {
+				ft.h.noteFreshFrame(b, a, provID)
+			}
+		}
+	}()
 	var before *Term
 	var mname string
 	if !isStructT(ty) && !isArrayT(ty) {
@@ -1394,4 +1418,21 @@ func (ft *FuncTr) returnsDirectly(b *ssa.BasicBlock) bool {
 		}
 	}
 	return true
+}
+
+// pointerLike: values of this sort may carry references
+func pointerLike(s *Sort) bool {
+	switch s {
+	case SInt, SBool, SStr, SReal:
+		return false
+	}
+	return true
+}
+
+// leak: from here on the objects allocated so far may be reachable from older objects (or known to callees);
+// stores into them are no longer invisible to predicates over older objects.
+func (ft *FuncTr) leak() {
+	for k := range ft.allocID {
+		delete(ft.allocID, k)
+	}
 }
